@@ -66,8 +66,8 @@ def corpus_cases(sub='cl'):
 
 def run(ctx, prop_files, flavours, n_quick, n_thorough, keep=lambda l: True, variants_quick=('multi_functor',),
         variants_thorough=('multi_functor', 'single_stdfunction', 'spinlock_functor'), what='callback list',
-        filter_case=None, extra_trusted=()):
-    proof = vlib.coq_prove(ctx, prop_files, leaves=['callbacklist'])
+        filter_case=None, extra_trusted=(), leaves=('callbacklist',)):
+    proof = vlib.coq_prove(ctx, prop_files, leaves=list(leaves))
     names = variants_thorough if ctx.tier == 'thorough' else variants_quick
     bins = build_variants(ctx, names)
     n = ctx.budget(n_quick, n_thorough)
